@@ -24,16 +24,18 @@ using S = Sel::scalar;
 static constexpr unsigned NS = Sel::NSCAL;
 #if CODEC != 0 && CODEC != 11
 // scalar j of a value, as bit pattern
-static uint64_t comp_bits(const T &t, unsigned j) {
-  if constexpr (IS_VEC) return bits_of<S>(t[j]);
-  else if constexpr (IS_HANDLE) return (uint32_t)t.idx();
-  else return bits_of<S>(t);
+template <class X> static uint64_t comp_bits_t(const X &t, unsigned j) {
+  if constexpr (is_handle_v<X>) return (uint32_t)t.idx();
+  else if constexpr (std::is_arithmetic_v<X>) return bits_of<X>(t);
+  else return bits_of<typename X::value_type>(t[j]);
 }
-static T sym_value() {
-  if constexpr (IS_VEC) { T t; for (unsigned j = 0; j < NS; ++j) t[j] = scalar_from_bits<S>(v_nondet_u64()); return t; }
-  else if constexpr (IS_HANDLE) return T((int)v_nondet_u32());
-  else return scalar_from_bits<S>(v_nondet_u64());
+template <class X> static X sym_value_t() {
+  if constexpr (is_handle_v<X>) return X((int)v_nondet_u32());
+  else if constexpr (std::is_arithmetic_v<X>) return scalar_from_bits<X>(v_nondet_u64());
+  else { X t; for (unsigned j = 0; j < NS; ++j) t[j] = scalar_from_bits<typename X::value_type>(v_nondet_u64()); return t; }
 }
+static uint64_t comp_bits(const T &t, unsigned j) { return comp_bits_t<T>(t, j); }
+static T sym_value() { return sym_value_t<T>(); }
 static bool same(const T &a, const T &b) { for (unsigned j = 0; j < NS; ++j) if (comp_bits(a, j) != comp_bits(b, j)) return false; return true; }
 
 // ---- encode_n / decode_n through PropertyEncoderT::serialize / PropertyDecoderT::deserialize, symbolic span within n = NELEM
